@@ -71,6 +71,32 @@ def make_lifetime(dist, dims, base, shapes, extra, inflow_at="middle", n_pts=1, 
     prms = {nm: make_param(dims, nm, base, shapes.get(nm, "scalar"), extra, n_t) for nm in base}
     if via == "ctor":
         return cls(dims=dims, inflow_at=inflow_at, n_pts_per_interval=n_pts, **prms)
+    if via == "attrs":  # the inflow instant / number of points are assigned after construction, before any table is read
+        lm = cls(dims=dims, **prms)
+        lm.inflow_at = inflow_at
+        lm.n_pts_per_interval = n_pts
+        return lm
+    if via == "copy-reparam":  # shallow copies of the model (scenario variants) were given other parameters
+        import copy
+
+        lm = cls(dims=dims, inflow_at=inflow_at, n_pts_per_interval=n_pts, **prms)
+        for k, c in enumerate((lm.model_copy(), copy.copy(lm))):
+            c.set_prms(**{nm: v + 0.5 * (k + 1) for nm, v in prms.items()})
+            _ = c.sf
+        return lm
+    if via == "used":  # the model was used by stocks (stock-driven with the manual solver, inflow-driven) before
+        import flodym as _f
+
+        lm = cls(dims=dims, inflow_at=inflow_at, n_pts_per_interval=n_pts, **prms)
+        with np.errstate(all="ignore"):
+            for scls, kw in ((_f.StockDrivenDSM, dict(solver="manual")), (_f.InflowDrivenDSM, {})):
+                try:
+                    st = scls(dims=dims, lifetime_model=lm, **kw)
+                    (st.stock if scls is _f.StockDrivenDSM else st.inflow).values[...] = 1.0 + np.arange(n_t).reshape((n_t,) + (1,) * (len(dims.shape) - 1))
+                    st.compute()
+                except Exception:
+                    pass
+        return lm
     lm = cls(dims=dims, inflow_at=inflow_at, n_pts_per_interval=n_pts)
     if via == "positional":  # set_prms(mean, std) / set_prms(weibull_shape, weibull_scale): the documented order
         lm.set_prms(*[prms[nm] for nm in base])
